@@ -352,15 +352,20 @@ def report(prop, args, units, results, known, seed, t0, scratch):
             violations.append((u, ob, r))
     # witness search + replay files
     out_lines = []
+    wit_cache = {}
     for u, ob, r in violations:
         wit = None
         finder = getattr(u.module, 'find_witness', None)
-        if finder:
+        ck = (u.name, ob['function'])
+        if ck in wit_cache:
+            wit = wit_cache[ck]
+        elif finder:
             try:
                 wit = finder(u, ob, args.repo, scratch)
             except Exception as e:  # witness search is best effort
                 wit = None
                 ob['witness_error'] = repr(e)
+            wit_cache[ck] = wit
         name = re.sub(r'[^A-Za-z0-9_.-]+', '_', '%s-%s-%s' % (prop, ob['id'], (ob['clause'] or '')[:40]))
         rpath = os.path.join(rdir, name + '.json')
         with open(rpath, 'w') as f:
@@ -374,7 +379,8 @@ def report(prop, args, units, results, known, seed, t0, scratch):
         line = 'VIOLATION property=%s replay=%s obligation=%s' % (prop, rpath, ob['id'])
         if not wit:
             line += ' no-failing-input-found'
-        out_lines.append(line)
+        if line not in out_lines:      # the same obligation can fail at several exits
+            out_lines.append(line)
     for ob, k in knowns:
         print('KNOWN-FINDING: property=%s %s %s' % (prop, ob['id'], k.get('what', '')))
     for line in out_lines:
